@@ -489,11 +489,14 @@ def run(ctx):
     q2 = "MC_fixed2.cfg"
     if not T:
         q2 = "MC_fixed2q.cfg"
-        open(os.path.join(sd, q2), "w").write(cfg_text(dict(SMALL2, MaxNow=4), {}, invariants=SAFETY, spec="FairSpec", props=["Answered"]))
+        open(os.path.join(sd, q2), "w").write(cfg_text(dict(SMALL2, MaxNow=4), {}, invariants=SAFETY + ["NotStranded"], spec="FairSpec",
+                                                       props=["Answered", "DrainReleases"]))
     jobs = [("x", q2, "I => P, repaired design, 2 requests + shutdown: safety and liveness", 4)]
     if T:
         jobs.append(("x", "MC_asis3.cfg", "I => P, code as it is (open finding O12): all clauses but Order, Order only after a requeue", 6))
         jobs.append(("x", "MC_fixed3.cfg", "I => P, repaired design, 3 requests, 2 priorities: safety", 6))
+        if os.environ.get("VERIF_C06_BIG"):
+            jobs.append(("x", "MC_fixed3_big.cfg", "I => P, repaired design, 3 requests, 2-tick quota window, 4 ticks: safety", 8))
     for name in VARIANTS:
         jobs.append(("v", name, None, 1))
     variants = {}
@@ -567,8 +570,6 @@ def run(ctx):
                      % (len(EDGES & edges), len(EDGES), (" (not exercised: %s)" % ", ".join("%s:%s->%s" % e for e in missing)) if missing else ""))
     ctx.notes.append("schedules of FlowQueueI forced on the real code: %d reproduced the model's observable events exactly, "
                      "%d diverged (real code left the schedule; recording still judged by P), of %d" % (forced, diverged, len(steps_of)))
-    if forced < max(3, len(walks) // 4):
-        raise Broken("only %d of %d model schedules could be forced on the real code (binding lost)" % (forced, len(steps_of)))
     # the open finding must still be reproducible from the model's counterexample (else: close it)
     for kf, (flag, val) in KF_FLAGS.items():
         vn = next(n for n, (_, fl, _) in VARIANTS.items() if fl == {flag: val})
@@ -577,6 +578,8 @@ def run(ctx):
             ctx.notes.append("open finding %s: the model's counterexample no longer shows on the real code" % kf)
 
     report(ctx, binary, [(n, sc, t, v) for n, sc, t, v in zip(names, scs, traces, verdicts) if v is not None])
+    if not ctx.violations and forced < max(3, len(walks) // 4):
+        raise Broken("only %d of %d model schedules could be forced on the real code (binding lost)" % (forced, len(steps_of)))
     ctx.sample({"kind": "forced-schedule", "name": names[0], "events": [e for e in traces[0] if e["ev"] != "tick"][:16]})
     ctx.sample({"kind": "free-running", "name": names[-1], "events": [e for e in traces[-1] if e["ev"] != "tick"][:16]})
 
@@ -606,20 +609,27 @@ def run(ctx):
 
 
 def replay(ctx, path):
+    """re-execute the stored scenario on the real code (forced schedules: deterministic; free-running ones: up to 20
+    attempts), judge each recording with the specification."""
     obj = json.load(open(path))
     binary = ctx.build_harness("c06")
     sc = obj["replay"]["scenario"]
     want = obj["witness"]["class"]
-    for a in range(20):
+    gated = any(st["op"] == "hold" for st in sc["steps"])
+    for a in range(3 if gated else 20):
         t = execute(ctx, binary, [sc], "replay", par=1)[0]
         v = judge(ctx, [t], "replay%d" % a)[0]
         if v is not None:
             for e in t:
-                print(json.dumps(e))
+                if e["ev"] != "tick":
+                    print(json.dumps(e))
+            w = witness_of(t, v[0], v[1])
+            if ctx.match_known(w) is not None:
+                print("KNOWN-FINDING: property=C06 %s" % ctx.match_known(w).get("describe", ""))
+                print("replay shows the open finding only")
+                return 0
             print("VIOLATION property=C06 replay=%s" % path)
             print("   rejected at event %d (%s): %s" % (v[0], v[1], json.dumps(t[v[0]])))
             return 1
-        if not any(e["ev"] == "diverged" for e in t):
-            break
     print("replay accepted by the specification (class %s not shown)" % want)
     return 0
